@@ -9,7 +9,7 @@ so each output is attributable to exactly one input.
 import threading
 import time
 
-from checks.common import make_exc, exc_key
+from checks.common import make_exc, exc_key, note_exc
 
 MAP_ADD = 1000
 PAR_ADD = 100000
@@ -213,6 +213,7 @@ def _exc_x(e):
 
 
 def exc_obs(e):
+    note_exc(e)
     return [type(e).__name__, _exc_x(e)]
 
 
